@@ -98,7 +98,9 @@ static void PrintRunLine(uint64_t idx, const RunResult& rr, bool with_decoded = 
   s += "},\"faults\":{";
   first = true;
   for (auto& kv : rr.stats.faults) { if (!first) s += ","; first = false; s += "\"" + kv.first + "\":" + std::to_string(kv.second); }
-  s += "},\"nontrivial\":[";
+  s += "}";
+  if (!rr.stats.small_shape.empty()) s += ",\"small\":{\"shape\":\"" + rr.stats.small_shape + "\",\"order\":\"" + rr.stats.small_order + "\",\"linext\":" + std::to_string(rr.stats.small_linext) + "}";
+  s += ",\"nontrivial\":[";
   first = true;
   for (auto& kv : rr.stats.nontrivial) if (kv.second) { if (!first) s += ","; first = false; s += "\"" + kv.first + "\""; }
   s += "]}";
@@ -168,7 +170,7 @@ int main(int argc, char** argv) {
   if (argc < 2) { fprintf(stderr, "usage: simninja run|replay|shrink|logdrv ...\n"); return 2; }
   std::string cmd = argv[1];
   std::string profile = "C01", tier = "quick", outdir = "/tmp";
-  uint64_t seed = 1, first = 0, count = 1;
+  uint64_t seed = 1, first = 0, count = 1, scen_seed = 0;
   std::string file;
   bool verbose = false, decoded_first = false;
   for (int i = 2; i < argc; i++) {
@@ -183,6 +185,7 @@ int main(int argc, char** argv) {
     else if (a == "-v") verbose = true;
     else if (a == "--decoded-first") decoded_first = true;
     else if (a == "--prop" || a == "--cls") next();
+    else if (a == "--scen-seed") scen_seed = strtoull(next().c_str(), nullptr, 10);
     else file = a;
   }
   if (cmd == "run") {
@@ -190,6 +193,7 @@ int main(int argc, char** argv) {
     for (uint64_t i = first; i < first + count; i++) {
       Tape t;
       t.seed = RunSeed(seed, i);
+      t.scen_seed = scen_seed;
       ArmWatchdog(60);
       RunResult rr = RunAny(t, prof, profile, tier);
       ArmWatchdog(0);
